@@ -270,6 +270,9 @@ def trace_origin(
                 if alias.name != "*":
                     continue
 
+                if node.level:
+                    continue  # A relative import, node.module is not the name of a top level module
+
                 if node.module in constants.PYTHON_311_STDLIB:
                     # Logic copied from _get_exports_list() in os.py from python3.12.0b2
                     try:
@@ -429,6 +432,9 @@ def fix_reimported_names(source: str) -> str:
     transaction = 0
 
     for node in core.walk(root, ast.ImportFrom):
+        if node.level:
+            continue  # A relative import, node.module is not the name of a top level module
+
         if node.module in constants.PYTHON_311_STDLIB:
             continue
 
